@@ -3,6 +3,7 @@ package main
 import (
 	"encoding/json"
 	"fmt"
+	"regexp"
 	"strings"
 	"unicode/utf8"
 
@@ -126,6 +127,42 @@ var soupVocab = []string{"S1F1", "S6F11", "s0f0", "S999F1", "S1F999", "W", "[W]"
 	"F4", "F8", "I1", "I2", "I4", "I8", "U1", "U2", "U4", "U8", "l", "boolean", "[2]", "[0]", "[1..3]", "[..2]", "[2..]", "[ 2 .. 3 ]", "[]", "[x]", "0", "1", "-1", "255", "256", "0x1F", "0b101", "0o17",
 	"1.5", "-2.5e3", "1e999", "0x", "1e", "T", "F", "t", "x", "var_1", "v[0]", "v[1][2]", "...", "...[0]", "...[3]", `"str"`, `""`, `"a b"`, `"<L>"`, "@", "#", "é", "1x", "12abc"}
 
+var sizeRe = regexp.MustCompile(`^\[([0-9]*)(\.\.)?([0-9]*)\]$`)
+var innerBlanks = []string{"", "", " ", "\t", "\n", "\r\n", "  ", "\n  ", " \n"}
+
+// sizeSpellings gives every well-formed size declaration a spelling with random
+// blanks and line breaks inside the brackets (the lexer allows them there; no comments).
+func sizeSpellings(r *rng.R, toks []smltext.Tok, base []string) ([]string, int) {
+	out := make([]string, len(toks))
+	copy(out, base)
+	n := 0
+	for i, t := range toks {
+		m := sizeRe.FindStringSubmatch(strings.ReplaceAll(t.S, " ", ""))
+		if m == nil || (m[1] == "" && m[3] == "") || strings.ContainsAny(t.S, " ") && r.Bool() {
+			continue
+		}
+		b := func() string { return innerBlanks[r.Intn(len(innerBlanks))] }
+		s := "[" + b() + m[1]
+		if m[1] != "" {
+			s += b()
+		}
+		if m[2] != "" {
+			s += ".." + b()
+		}
+		if m[3] != "" {
+			s += m[3] + b()
+		}
+		s += "]"
+		if s != t.S {
+			out[i] = s
+			if strings.Contains(s, "\n") {
+				n++
+			}
+		}
+	}
+	return out, n
+}
+
 func mkCase(r *rng.R, toks []smltext.Tok, kind, move string, stats func(map[string]int)) c08Case {
 	cs := c08Case{Move: move, Kind: kind}
 	for _, t := range toks {
@@ -146,11 +183,20 @@ func mkCase(r *rng.R, toks []smltext.Tok, kind, move string, stats func(map[stri
 	} else {
 		l1, g1, s1 := smltext.Layout(r, toks, smltext.LayoutOpts{AddOptional: r.Bool(), Comments: r.Chance(1, 3), QuoteInCmt: quoteOK, FinalNoEOL: true})
 		l2, g2, s2 := smltext.Layout(r, toks, smltext.LayoutOpts{AddOptional: true, Comments: true, QuoteInCmt: quoteOK, FinalNoEOL: true})
-		rd1 = smltext.Render(toks, l1, g1, nil)
-		rd2 = smltext.Render(toks, l2, g2, nil)
+		// blanks inside size brackets only where the token is certainly a size declaration (inside an item of a valid
+		// message); in the header state "[2 ..]" would be two names
+		var sp1, sp2 []string
+		n1, n2 := 0, 0
+		if kind == "valid" {
+			sp1, n1 = sizeSpellings(r, toks, nil)
+			sp2, n2 = sizeSpellings(r, toks, nil)
+		}
+		rd1 = smltext.Render(toks, l1, g1, sp1)
+		rd2 = smltext.Render(toks, l2, g2, sp2)
 		if stats != nil {
 			stats(s1)
 			stats(s2)
+			stats(map[string]int{"size-declaration-with-inner-line-break": n1 + n2})
 		}
 	}
 	cs.Text1, cs.Text2 = rd1.Text, rd2.Text
@@ -247,7 +293,7 @@ func runC08(c *ctx) {
 	for k, v := range agg {
 		c.ClassN("layout/"+k, int64(v))
 	}
-	c.Required = []string{"move/layout/valid", "move/layout/mutated", "move/layout/soup", "move/case/valid", "accepted", "with-errors", "layout/comment", "layout/comment-final-byte/0xa0", "layout/comment-final-byte/0x85", "layout/comment/final-without-eol", "diagnostic-at/token", "diagnostic-at/end"}
+	c.Required = []string{"move/layout/valid", "move/layout/mutated", "move/layout/soup", "move/case/valid", "accepted", "with-errors", "layout/comment", "layout/comment-final-byte/0xa0", "layout/comment-final-byte/0x85", "layout/comment/final-without-eol", "layout/size-declaration-with-inner-line-break", "diagnostic-at/token", "diagnostic-at/end"}
 }
 
 func replayC08(c *ctx, raw json.RawMessage) {
